@@ -3,6 +3,8 @@ import Driver.Dispatch
 import Driver.Unicode
 import Driver.Wsgi
 import Driver.Checksum
+import Driver.Regex
+import Driver.Str
 /-!
 Native model driver: one request per line on stdin (`<module>:<function>\t<json args>`),
 one response per line on stdout.  Hand-written handlers for the spec-level models are tried first.
@@ -15,7 +17,9 @@ namespace Driver
 def handWritten (target : String) (args : List Json) : Option String :=
   (Driver.Unicode.handle target args).orElse fun _ =>
   (Driver.Wsgi.handle? target args).orElse fun _ =>
-  (Driver.Checksum.handle target args)
+  (Driver.Checksum.handle target args).orElse fun _ =>
+  (if target.startsWith "re." then some (Driver.Regex.handle target args) else none).orElse fun _ =>
+  (Driver.Str.handle target args)
 
 def handleLine (line : String) : String :=
   match Py.Wire.parseLine line with
